@@ -80,21 +80,23 @@ SPEC = {
         "the history checker decideHist (total Wing-Gong search with memoisation + witness validation) is proved sound and "
         "complete (C05_checker_sound, C05_checker_complete); trusted about it: the Lean compiler/runtime and Std.HashSet of the "
         "toolchain (the proofs use its contains/insert lemmas)",
-        "Go toolchain, compiled Lean driver drv_c05",
+        "Go toolchain, compiled Lean driver drv_c05; go/parser + go/printer for the regenerated skeletons / pinned source text",
     ],
     "modelled": [
-        "mapDB.Get/Has/Set/Delete/DeletePrefix/Clear/Iterate/IterateKeys/Close, batchedMutations.Commit, syncedKVMap primitives",
-        "NOT modelled: batch Set/Delete/Cancel (they touch only the batch's own maps under the batch mutex); WithRealm/Batched/"
-        "Flush (one flag load, no map access); the flushkv wrapper's Flush after each mutation (a flag load) - note that with a "
-        "concurrent Close flushkv.Set can apply the write and still return ErrStoreClosed (Flush fails); histories with Close "
-        "are therefore generated without flushkv",
+        "mapDB.Get/Has/Set/Delete/DeletePrefix/Clear/Iterate/IterateKeys/Close, batchedMutations.Commit, syncedKVMap primitives; "
+        "since the extension round also the flag-only calls WithRealm/WithExtendedRealm/Batched/Flush (closed-flag load + ghost "
+        "access nop) and the batch-local calls batch Set/Delete/Cancel (batch mutex only); a created view/batch is a LockId not used "
+        "before, free by C05_unused_lock_is_free",
+        "NOT modelled: the contents of a batch's private maps (a commit carries its write list); the flushkv wrapper (= wrapped call, "
+        "then a flag-only call whose `closed` answer is dropped: its complete source text is pinned by C05_source_flushkv*, and half "
+        "of the recorded histories run through it); the debug wrapper (a callback before the call)",
         "an operation that loaded the flag before a concurrent Close still takes effect afterwards (as in the code): the ghost "
         "linearisation in trace order is sequential w.r.t. the specification in which a call fails with ErrStoreClosed iff it saw "
         "the flag set (seqOk); C05_linearizable_close proves that the recorded history of every trace is nevertheless linearizable "
         "w.r.t. the full C04 contract with Close (the straddling calls are moved before the Close point; they were invoked before it)",
-        "flushkv is not part of the protocol model; its mutators run the wrapped mutation and then Flush(): a Close in between made "
-        "the call answer ErrStoreClosed although the mutation took effect (exhibited by the forced-schedule scenario 'flushclose', "
-        "fixed in /repo b5d5462; the scenario stays as a regression test)",
+        "flushkv's mutators run the wrapped mutation and then Flush(): a Close in between made the call answer ErrStoreClosed "
+        "although the mutation took effect (exhibited by the forced-schedule scenario 'flushclose', fixed in /repo b5d5462; the "
+        "scenario stays as a regression test)",
     ],
     "manifest": {
         "text": "Theorems over every reachable configuration of the protocol model, for every number of goroutines, every scripts, "
@@ -111,16 +113,21 @@ SPEC = {
                 "(C05_deadlock_free, from rank order batch<view<map, C05_code_well_bracketed); the accesses are the C04 "
                 "specification's steps (C05_effects_are_C04_spec, C05_commit_effects_are_C04_spec); the history checker is sound "
                 "(C05_checker_sound). Tie: regenerated lock skeletons of mapdb.go/synced_map.go as proof obligations "
-                "(C05_skeleton_*), and stress + forced-schedule histories of the real packages (2..16 goroutines, shared views of "
+                "(C05_skeleton_*, incl. the flag-only and batch-local calls and the type facts of the three lock-carrying structs) and pinned "
+                "source text of the object constructors and of the whole flushkv wrapper (C05_source_*, regenerated by harness/c05/srcpin); "
+                "a lock nobody uses is free, so a freshly created view cannot block (C05_unused_lock_is_free); "
+                "a crash probe in a child process turns fatal runtime errors / race reports / hangs into findings with the plan as replay; "
+                "stress + forced-schedule histories of the real packages (2..16 goroutines, shared views of "
                 "overlapping realms, atomic logical clock, Close in a quarter of them) decided by the Lean checker and, independently, by a Go checker; "
                 "watchdog for hangs; scenario families: snapshot, flushkv/Close, read-only phase, torn values, batch Delete+Set, large store with "
-                "DeletePrefix/Clear of more than half (final-state oracle), Commit racing Close (failed-commit-wrote); thorough tier under -race.",
+                "DeletePrefix/Clear of more than half (final-state oracle), Commit racing Close (failed-commit-wrote), views created while their parent's "
+                "lock is held (freshview); caller-owned buffers are overwritten after every call (aliasing); thorough tier under -race.",
         "note": "Data-race freedom is proved for the model's lock discipline only; for the real code it is supported by the race "
                 "detector runs. Fixed finding (b5d5462): behind flushkv a mutation racing Close took effect and still answered "
                 "ErrStoreClosed (forced-schedule scenario, design/C05.md). Trusted: Lean kernel, the protocol model (tied by skeleton obligations + histories), RWMutex semantics.",
         "technique": "Lean 4 invariant proofs over an interleaving model with arbitrary thread pool (ghost linearisation, lock "
                      "counting invariants, rank-based deadlock freedom) + verified-witness linearizability checking of recorded histories",
     },
-    "assumptions": ["goroutines use the store only through the modelled methods; a batch object is used by one goroutine at a time "
-                    "(its mutex is modelled, concurrent batch Set/Delete are not)"],
+    "assumptions": ["goroutines use the store only through the modelled methods; concurrent use of ONE batch object is modelled as far as "
+                    "its mutex goes (batchOp), the contents of its private maps are not (exercised by the crash probe only)"],
 }
